@@ -1560,3 +1560,19 @@ Proof.
   - rewrite Nat2N.inj_succ, N2Nat.id, N.pow_succ_r'. pose proof (N.size_gt n). lia.
   - rewrite Ep, app_nil_r, Hp. lia.
 Qed.
+
+(* ---- whatever three-digit code the edge's queue gave: that code is what attempt() carries ---- *)
+Definition report_code (r : relay_report) : option text :=
+  match r with
+  | RepOk c | RepPermanent c | RepTransient c => c
+  | RepValueError => None
+  end.
+Definition report_is_success (r : relay_report) : bool := match r with RepOk _ => true | _ => false end.
+
+Theorem http_reported_code : forall code msg, code3 code ->
+  report_code (process_response (http_status code) (build_reply_header code msg)) = Some code /\
+  report_is_success (process_response (http_status code) (build_reply_header code msg)) = starts_with [50] code.
+Proof.
+  intros code msg H. rewrite (http_code_reported code msg H). unfold report_of.
+  destruct (starts_with [50] code); [split; reflexivity|]. destruct (starts_with [53] code); split; reflexivity.
+Qed.
